@@ -42,7 +42,12 @@ impl G {
     pub fn word(&mut self, max: usize, small: bool) -> String {
         let n = self.r.below(max + 1);
         let al = if small || self.r.chance(2, 3) { ALPHA_SMALL } else { ALPHA };
-        (0..n).map(|_| *self.r.pick(al)).collect()
+        let mut w: Vec<char> = (0..n).map(|_| *self.r.pick(al)).collect();
+        // a text that BEGINS with the letter i: the case prefix of the pattern syntax is an `i`
+        if n >= 1 && self.r.chance(1, 12) {
+            w[0] = if self.r.chance(3, 4) { 'i' } else { 'I' };
+        }
+        w.into_iter().collect()
     }
 
     pub fn int_text(&mut self) -> String {
@@ -499,6 +504,59 @@ impl G {
         }
         let mut cond = terms.into_iter().reduce(|l, r| json!({"t":"or","l":l,"r":r})).unwrap();
         if !self.positive && self.r.chance(1, 3) {
+            cond = json!({"t":"not","e":{"t":"par","e":cond}});
+        }
+        json!({"cond":cond,"ids":ids})
+    }
+
+    /// ONE nested block with two or three keys (a conjunction evaluated against the nested object),
+    /// plain or negated; optionally two operands read the same member (`x` and `int(x)`).  Documents
+    /// hold the object with any subset of the members: the verdict must not depend on how many
+    /// members the object has, only on the ones the block names.
+    pub fn nested_multi_source(&mut self) -> J {
+        let mut es = vec![];
+        if self.r.chance(1, 3) {
+            let lo = self.r.below(3);
+            es.push(json!({"m":"none","c":0,"f":cps("x"),"v":{"t":"cmp","op":"ge","n":int_node(&format!("{}", lo))}}));
+            es.push(json!({"m":"int","c":0,"f":cps("x"),"v":{"t":"cmp","op":"lt","n":int_node(&format!("{}", lo + 2))}}));
+        } else {
+            es.push(json!({"m":"none","c":0,"f":cps("x"),"v":self.pattern(false)}));
+        }
+        es.push(json!({"m":"none","c":0,"f":cps("y"),"v":self.pattern(false)}));
+        if self.r.chance(1, 3) {
+            es.push(json!({"m":"none","c":0,"f":cps("z"),"v":{"t":"pat","k":"any","ic":false,"a":[]}}));
+        }
+        let ids = vec![json!([cps("A"), {"t":"map","es":[{"m":"none","c":0,"f":cps("p"),"v":{"t":"map","es":es}}]}])];
+        let cond = if !self.positive && self.r.chance(1, 2) { json!({"t":"not","e":{"t":"id","n":cps("A")}}) } else { json!({"t":"id","n":cps("A")}) };
+        json!({"cond":cond,"ids":ids})
+    }
+
+    /// nested mappings 2..5 levels deep (`p: {q: {r: {s: v}}}`), two or three of them sharing a
+    /// prefix of the path, combined by and / or: depth of the solver's recursion through Nested
+    pub fn deep_nested_source(&mut self) -> J {
+        let segs = ["p", "q", "r", "s", "t"];
+        let nid = 2 + self.r.below(2);
+        let mut ids = vec![];
+        let mut names = vec![];
+        for i in 0..nid {
+            let depth = 2 + self.r.below(4);
+            let mut v = if self.r.chance(1, 3) { json!({"t":"pat","k":"any","ic":false,"a":[]}) } else { self.pattern(false) };
+            let leaf = *self.r.pick(&["x", "y"]);
+            let mut e = json!({"t":"map","es":[{"m":"none","c":0,"f":cps(leaf),"v":v}]});
+            for d in (0..depth).rev() {
+                v = e;
+                e = json!({"t":"map","es":[{"m":"none","c":0,"f":cps(segs[d]),"v":v}]});
+            }
+            let name = IDENTS[i].to_string();
+            ids.push(json!([cps(&name), e]));
+            names.push(name);
+        }
+        let mut cond = json!({"t":"id","n":cps(&names[0])});
+        for n in names.iter().skip(1) {
+            let op = if self.r.chance(1, 2) { "and" } else { "or" };
+            cond = json!({"t":op,"l":cond,"r":{"t":"id","n":cps(n)}});
+        }
+        if !self.positive && self.r.chance(1, 4) {
             cond = json!({"t":"not","e":{"t":"par","e":cond}});
         }
         json!({"cond":cond,"ids":ids})
@@ -1083,6 +1141,18 @@ fn cond_soup(g: &mut G, odd: bool) -> String {
 const PAT_CHARS: &[char] = &['i', '?', '>', '<', '=', '*', '\'', '"', 'a', 'A', '1', '.', '-', ' ', 'b', '0', '+', 'e', '(', '[', '\\', '$', '^', 'é', 'É', '😀'];
 
 fn pat_soup(g: &mut G) -> String {
+    // one in four: a NUMERIC pattern around the 64-bit boundaries (the comparison prefixes parse
+    // the rest as i64, then as f64), with an optional case prefix, sign and trailing junk
+    if g.r.chance(1, 4) {
+        let pre = *g.r.pick(&["", "", "i", ">", ">=", "<", "<=", "=", "i>", "i<=", "?", "> ", ">-"]);
+        let sign = *g.r.pick(&["", "", "-", "+"]);
+        let num = *g.r.pick(&["9223372036854775807", "9223372036854775808", "9223372036854775806", "18446744073709551615",
+                               "18446744073709551616", "0", "00", "1", "9223372036854775807.0", "9223372036854775807.5", "1e400", "1e-400",
+                               "1.7976931348623157e308", "1.7976931348623159e308", "4.9e-324", ".5", "5.", "1_000", "0x10", "NaN", "nan", "inf",
+                               "infinity", "1e", "e1", "1.5.5", "99999999999999999999999999999999999999999"]);
+        let post = *g.r.pick(&["", "", "", " ", "a", "*", ".", "-"]);
+        return format!("{}{}{}{}", pre, sign, num, post);
+    }
     let n = g.r.below(7);
     (0..n).map(|_| *g.r.pick(PAT_CHARS)).collect()
 }
@@ -1505,6 +1575,31 @@ pub fn gen_cases(topic: &str, seed: u64, n: usize, path: &str) -> Result<(), Str
         w.flush().map_err(|e| e.to_string())?;
         return Ok(());
     }
+    if topic == "bigq" {
+        // C12: quantified lists of 65..200 needles (slow_aho: hit sets of 64 and more members), in
+        // runs of cases whose sizes differ, each executed again later and from fresh threads - a
+        // verdict must not depend on what was matched before on the same thread
+        let mut g = G::new(seed ^ 0xB190);
+        let mut w = BufWriter::new(File::create(path).map_err(|e| e.to_string())?);
+        for i in 0..n {
+            let nn = if i % 2 == 0 { *g.r.pick(&[130usize, 190, 200, 129]) } else { *g.r.pick(&[65usize, 70, 100, 127]) };
+            let vs: Vec<J> = (0..nn).map(|k| json!({"t":"pat","k":"contains","ic":false,"a":cps(&format!("m{}z", k))})).collect();
+            let hi: String = (nn / 2..nn).map(|k| format!("m{}z", k)).collect();
+            let all: String = (0..nn).map(|k| format!("m{}z", k)).collect();
+            let but_last: String = (0..nn - 1).map(|k| format!("m{}z", k)).collect();
+            let (m, c) = match g.r.below(4) { 0 => ("all", 0), 1 => ("of", nn), 2 => ("of", nn - nn / 2 + 1), _ => ("of", nn / 2) };
+            let src = json!({"cond":{"t":"id","n":cps("A")},"ids":[[cps("A"),{"t":"map","es":[{"m":m,"c":c,"f":cps("f"),"v":{"t":"list","vs":vs}}]}]]});
+            // the LAST document matched leaves its hits behind: for the larger list it is the one
+            // whose hits lie in the upper half
+            let docs = vec![obj(vec![("f".into(), s_node("m1z"))]), obj(vec![("f".into(), s_node(&but_last))]),
+                            obj(vec![("f".into(), s_node(&all))]), obj(vec![("f".into(), s_node(&hi))])];
+            let c = json!({"topic":"bigq","oracle":false,"wt":true,"src":src,"docs":docs,
+                           "plan":{"tri":false,"scope":"sw","sws":[[], [true,true,true,true]],"threads":2,"again":true}});
+            writeln!(w, "{}", c).map_err(|e| e.to_string())?;
+        }
+        w.flush().map_err(|e| e.to_string())?;
+        return Ok(());
+    }
     if topic == "cond" {
         let mut g = G::new(seed ^ 0xC05D);
         let mut w = BufWriter::new(File::create(path).map_err(|e| e.to_string())?);
@@ -1562,7 +1657,9 @@ pub fn gen_cases(topic: &str, seed: u64, n: usize, path: &str) -> Result<(), Str
         g.positive = matches!(topic, "opt" | "perm") && mode < 4;
         let shape = if topic == "nm" { 2 } else if matches!(topic, "opt" | "adv" | "pure" | "find" | "lang" | "perm") { g.r.below(8) } else { 9 };
         let topic = if topic == "nm" { "opt" } else { topic };
-        let src = match shape { 0 | 1 => g.matrix_source(), 2 => g.nested_merge_source(), _ => g.source(3) };
+        let src = match shape { 0 | 1 => g.matrix_source(), 2 => g.nested_merge_source(),
+                                3 if matches!(topic, "pure" | "opt" | "find") => g.deep_nested_source(),
+                                4 if matches!(topic, "find" | "opt" | "lang") => g.nested_multi_source(), _ => g.source(3) };
         let nd = 3 + g.r.below(4);
         let complete = matches!(topic, "opt" | "perm") && mode >= 4 && mode < 9;
         let docs: Vec<J> = (0..nd)
@@ -1758,7 +1855,11 @@ pub fn gen_cases(topic: &str, seed: u64, n: usize, path: &str) -> Result<(), Str
                     (0..n).map(|_| *g.r.pick(&segs)).collect::<Vec<_>>().join(".")
                 };
                 let leafpat = |g: &mut G| {
-                    if g.r.chance(1, 2) { json!({"t":"pat","k":"any","ic":false,"a":[]}) } else { json!({"t":"pat","k":"exact","ic":false,"a":cps("x")}) }
+                    match g.r.below(5) {
+                        0 | 1 => json!({"t":"pat","k":"any","ic":false,"a":[]}),
+                        2 => json!({"t":"null"}),
+                        _ => json!({"t":"pat","k":"exact","ic":false,"a":cps("x")}),
+                    }
                 };
                 let n_e = 1 + g.r.below(2);
                 let mut es = vec![];
@@ -1776,7 +1877,7 @@ pub fn gen_cases(topic: &str, seed: u64, n: usize, path: &str) -> Result<(), Str
                 fn tree(g: &mut G, depth: usize) -> J {
                     match g.r.below(if depth == 0 { 3 } else { 7 }) {
                         0 => s_node("x"),
-                        1 => s_node("y"),
+                        1 => if g.r.chance(1, 2) { s_node("y") } else { json!({"t":"N"}) },
                         2 => i_node("1"),
                         3 | 4 => {
                             let mut kv = vec![];
@@ -1876,7 +1977,18 @@ pub fn gen_cases(topic: &str, seed: u64, n: usize, path: &str) -> Result<(), Str
                     p
                 }).collect();
                 let v = if n == 1 && g.r.chance(1, 2) { pats[0].clone() } else { json!({"t":"list","vs":pats.clone()}) };
-                let src = json!({"cond":{"t":"id","n":cps("A")},"ids":[[cps("A"),{"t":"map","es":[{"m":"none","c":0,"f":cps("f"),"v":v}]}]]});
+                let ent = |p: &J| json!({"t":"map","es":[{"m":"none","c":0,"f":cps("f"),"v":p.clone()}]});
+                let src = match g.r.below(5) {
+                    // the same patterns as SEPARATE predicates on the one field: a sequence of
+                    // mappings, or one identifier each combined by `or` - the optimiser regroups them
+                    0 if n >= 2 => json!({"cond":{"t":"id","n":cps("A")},"ids":[[cps("A"),{"t":"seq","ms":pats.iter().map(|p| ent(p)).collect::<Vec<_>>()}]]}),
+                    1 if n >= 2 => {
+                        let ids: Vec<J> = pats.iter().enumerate().map(|(i, p)| json!([cps(IDENTS[i]), ent(p)])).collect();
+                        let cond = (0..n).map(|i| json!({"t":"id","n":cps(IDENTS[i])})).reduce(|l, r| json!({"t":"or","l":l,"r":r})).unwrap();
+                        json!({"cond":cond,"ids":ids})
+                    }
+                    _ => json!({"cond":{"t":"id","n":cps("A")},"ids":[[cps("A"),{"t":"map","es":[{"m":"none","c":0,"f":cps("f"),"v":v}]}]]}),
+                };
                 let mut docs = vec![];
                 for _ in 0..8 {
                     let p = g.r.pick(&pats).clone();
@@ -1892,8 +2004,9 @@ pub fn gen_cases(topic: &str, seed: u64, n: usize, path: &str) -> Result<(), Str
                        "plan":{"tri":false,"sws":[[], [true,true,true,true], [false,true,false,false], [false,false,true,false]]}})
             }
             // C01: every switch combination
-            "opt" => json!({"topic":"opt","oracle":true,"wt":true,"src":src,"docs":docs,
-                            "plan":{"tri":false,"sws":all17,"eng":true}}),
+            "opt" => { let reopt = g.r.chance(1, 5);
+                       json!({"topic":"opt","oracle":true,"wt":true,"src":src,"docs":docs,
+                            "plan":{"tri":false,"sws":all17,"eng":true,"reopt":reopt}}) }
             // C03: accepted rules never panic: all switches, adversarial documents, validate
             "adv" => {
                 let mut tps = vec![];
@@ -1915,7 +2028,8 @@ pub fn gen_cases(topic: &str, seed: u64, n: usize, path: &str) -> Result<(), Str
             }
             // C12: repeats, prints, threads
             "pure" => json!({"topic":"pure","oracle":true,"wt":true,"src":src,"docs":docs,
-                             "plan":{"tri":false,"scope":"sw","sws":some_sws,"expr":true,"repeat":3,"threads":4,"again":true}}),
+                             "plan":{"tri":false,"scope":"sw","sws":some_sws,"expr":true,"repeat":3,"threads":4,"again":true,"reopt":true,
+                                     "lockstep": if shape == 2 || shape == 3 || g.r.chance(1, 8) { 16 } else { 0 }}}),
             // C13: validate() against the rule's own examples
             "val" => {
                 let mut tps = vec![];
@@ -1936,11 +2050,30 @@ pub fn gen_cases(topic: &str, seed: u64, n: usize, path: &str) -> Result<(), Str
                     };
                     if g.r.chance(1, 2) { tps.push(json!({"raw":raw})); } else { tns.push(json!({"raw":raw})); }
                 }
+                // the lists are independent: the same document may stand in both, or twice in one
+                if !docs.is_empty() && g.r.chance(1, 4) {
+                    let i = g.r.below(docs.len());
+                    tps.push(json!({"d":i,"nomark":true}));
+                    tns.push(json!({"d":i,"nomark":true}));
+                    if g.r.chance(1, 3) { tps.push(json!({"d":i,"nomark":true})); }
+                }
                 json!({"topic":"val","oracle":true,"wt":true,"src":src,"docs":docs,"tps":tps,"tns":tns,
                        "plan":{"tri":false,"scope":"sw","sws":[[], [true,true,true,true], [false,true,false,true]],"validate":true}})
             }
             // C14: serialise and reload, before and after optimisation
             "ser" => {
+                // identifier names are case-sensitive: a rule may define `A` and `a`
+                let mut src = src;
+                if g.r.chance(1, 4) {
+                    let names: Vec<String> = src["ids"].as_array().map(|a| a.iter().filter_map(|p| str_of(&p[0]).ok()).collect()).unwrap_or_default();
+                    if names.len() >= 2 {
+                        let keep = names[0].clone();
+                        let variant = if keep.to_lowercase() != keep { keep.to_lowercase() } else { keep.to_uppercase() };
+                        if variant != keep && !names.contains(&variant) {
+                            rename_ident(&mut src, &names[1], &variant);
+                        }
+                    }
+                }
                 let tps: Vec<J> = (0..docs.len().min(2)).map(|i| json!({"d":i})).collect();
                 json!({"topic":"ser","oracle":true,"wt":true,"src":src,"docs":docs,"tps":tps,"tns":[],
                        "plan":{"tri":false,"scope":"sw","sws":[[], [true,true,true,true]],"ser":true,"via_value":true}})
@@ -1967,6 +2100,25 @@ pub fn gen_cases(topic: &str, seed: u64, n: usize, path: &str) -> Result<(), Str
                     let val = if g.r.chance(1, 5) { json!({"t":"A","vs":[i_node(t), s_node("10")]}) } else { i_node(t) };
                     docs.push(obj(vec![("f".into(), val)]));
                 }
+                // floats: values that are EXACT in f32 (so the std-type representation may carry them
+                // as f32) but are not short decimals - 0.1f32 is 0.100000001490116119384765625 -
+                // compared with the short decimal next to them
+                let (src, docs) = if g.r.chance(1, 3) {
+                    let consts = ["0.1", "0.2", "0.3", "0.7", "16777216.5", "1.5"];
+                    let fvals = ["0.100000001490116119384765625", "0.20000000298023223876953125", "0.300000011920928955078125",
+                                 "0.699999988079071044921875", "16777216.0", "16777218.0", "1.5", "0.25", "-0.100000001490116119384765625",
+                                 "0.0999999940395355224609375"];
+                    let op = *g.r.pick(&["gt", "ge", "lt", "le"]);
+                    let c = flt_node(*g.r.pick(&consts));
+                    let e = if g.r.chance(1, 2) { json!({"m":"none","c":0,"f":cps("f"),"v":{"t":"cmp","op":op,"n":c}}) }
+                            else { json!({"m":"flt","c":0,"f":cps("f"),"v":{"t":"cmp","op":op,"n":c}}) };
+                    let src = json!({"cond":{"t":"id","n":cps("A")},"ids":[[cps("A"),{"t":"map","es":[e]}]]});
+                    let mut docs = vec![];
+                    for _ in 0..8 {
+                        docs.push(obj(vec![("f".into(), f_node(*g.r.pick(&fvals)))]));
+                    }
+                    (src, docs)
+                } else { (src, docs) };
                 json!({"topic":"repr","oracle":true,"wt":true,"src":src,"docs":docs,
                        "plan":{"tri":false,"scope":"sw","sws":[[], [true,true,true,true]],
                                "reprs":["json","jsontext","yamltext","hm","own","ownsigned","doc"]}})
@@ -1999,6 +2151,37 @@ pub fn gen_cases(topic: &str, seed: u64, n: usize, path: &str) -> Result<(), Str
     }
     w.flush().map_err(|e| e.to_string())?;
     Ok(())
+}
+
+/// rename identifier `old` to `new` in the identifier table and everywhere the condition names it
+fn rename_ident(src: &mut J, old: &str, new: &str) {
+    fn walk(v: &mut J, old: &J, new: &J) {
+        match v {
+            J::Object(m) => {
+                let is_ref = matches!(m.get("t").and_then(|t| t.as_str()), Some("id") | Some("all") | Some("of"));
+                if is_ref && m.get("n") == Some(old) {
+                    m.insert("n".into(), new.clone());
+                }
+                for (_, x) in m.iter_mut() {
+                    walk(x, old, new);
+                }
+            }
+            J::Array(a) => a.iter_mut().for_each(|x| walk(x, old, new)),
+            _ => {}
+        }
+    }
+    let (o, n) = (cps(old), cps(new));
+    if src["cond"]["t"] == "text" {
+        return; // conditions given as text are left alone
+    }
+    walk(&mut src["cond"], &o, &n);
+    if let Some(ids) = src["ids"].as_array_mut() {
+        for p in ids.iter_mut() {
+            if p[0] == o {
+                p[0] = n.clone();
+            }
+        }
+    }
 }
 
 fn flip_ic(v: &mut J) {
